@@ -53,7 +53,7 @@ func init() {
 			"device is causal (devsim.CLI): echoes visible input, reads hidden input without echo, reacts to a line only when its return arrived",
 			"every expected-response regexp contains a token that is unique in the session, so it can match nowhere but in its own response text; no '#', '>', '$' outside prompts, so the prompt pattern matches prompts only",
 			"match point = smallest prefix of the device's reaction to event i-1 (normalised: CR removed) on which one of the patterns the call uses (completion patterns, expected response or the session's prompt pattern) matches; computed by brute force with those regexps",
-			"the session has consumed the prompt that precedes the dialogue when the first event waits for the prompt (a warm-up command precedes; a fresh generic session would take the stale initial prompt for the answer)",
+			"the session has consumed the prompt that precedes the dialogue when the first event waits for the prompt: a warm-up plain command precedes (its echo read swallows stale output). A dedicated share of such dialogues is run in a fresh session instead (descriptor fresh=true, dialogue only); their pacing/whole-dialogue violations carry the key suffix :fresh-session (known finding: the stale initial prompt is taken for the device's answer)",
 			"visible echo-matched inputs end in a byte that occurs nowhere else; bytes withheld by the device lie behind the match point; search depth exceeds every line",
 			"in reaction to one event the device shows either the expected response or a completion pattern, never both",
 			"escalation device: password read is hidden (no echo), rejects/refusals return to the exec prompt with an error line",
